@@ -539,9 +539,28 @@ Definition p_step (cfg : config) (t0 : Z) (m : mon) (pre : dump) (e : event) (o 
         end
       | _ => acc
       end) o (m, ""%string) in
+  (* C06/C02: "retry limit reached" is only a stated cause once the worker really
+     was told to run the task the configured number of extra times *)
+  let e_early := first_nonempty (map (fun o =>
+                  match do_resp o, find_dop pre (do_name o) with
+                  | Some r, Some o0 =>
+                    match do_resp o0, do_worker o0 with
+                    | None, Some wk =>
+                      if scheduler_made r && (r_code r =? cINTERNAL)%N then
+                        match aget wref_eqb (mkW (do_sk o0) (fst wk) (snd wk)) (m_reissue m0) with
+                        | Some (ops0, n0) =>
+                          if same_set Nat.eqb ops0 (do_taskops o0) && negb (Nat.eqb n0 (cf_retry_count cfg))
+                          then "C06:task-failed-before-retry-limit" else ""
+                        | None => ""
+                        end
+                      else ""
+                    | _, _ => ""
+                    end
+                  | _, _ => ""
+                  end) (d_ops post)) in
   let e_exec := match e with
                 | EStartExecute c a _ => first_nonempty [c07_exec o; c03_exec pre post a; c05_exec cfg t0 pre post c a o]
                 | _ => ""
                 end in
   (m, first_nonempty [e_panic; c01_dump post; e_sync; e_stream; e_lost; e_cancel; c03_dump post; c03_waited post; c04_dump post; e_exec; c05_assign pre post;
-                      c06_dump m post; c06_final m post; e_arm; e_retry; e_learn; c07_background post; c07_learners_match m post]).
+                      c06_dump m post; c06_final m post; e_arm; e_retry; e_early; e_learn; c07_background post; c07_learners_match m post]).
